@@ -119,5 +119,39 @@ func (mo *mon) lifetime(r *rand.Rand, v disco.Info, a model, route string, want 
 			return false
 		}
 	}
+	// A form of the value came from a scratch form.Data the application decodes
+	// into again and again (one <x/> after another into one variable): what was
+	// copied into the info value earlier is the info value's.
+	if len(a.Forms) > 0 {
+		fi := r.Intn(len(a.Forms))
+		var scratch form.Data
+		if err := xml.Unmarshal([]byte(formXML(a.Forms[fi], fi, r, false)), &scratch); err == nil {
+			v2 := v
+			v2.Form = append([]form.Data(nil), v.Form...)
+			v2.Form[fi] = scratch
+			s.Arrangement = "one form decoded into a scratch form.Data and copied into the value"
+			h1, alive := mo.hashOf(v2, s)
+			if !alive {
+				return false
+			}
+			other := genForm(r, map[string]bool{})
+			var uerr error
+			if mo.guard("xml.Unmarshal into the scratch form", func() { uerr = xml.Unmarshal([]byte(formXML(other, 1, r, false)), &scratch) }) {
+				mo.dead = true
+				return false
+			}
+			_ = uerr
+			s.Arrangement += ", then another <x/> decoded into the same scratch variable"
+			h2, alive := mo.hashOf(v2, s)
+			if !alive {
+				return false
+			}
+			c.Count("lifetime_scratch_form_reused_after_copy", 1)
+			if h1 != h2 {
+				mo.violate("caps:lifetime:scratch-form-reused", "%s: an info value holding a copy of a decoded form hashed to %q; after another <x/> was decoded into the variable the copy had been made from it hashes to %q (form %d of %+v, the other form %+v; the value now reads %+v)", mo.hh, h1, h2, fi, a, other, extract(v2))
+				return false
+			}
+		}
+	}
 	return true
 }
